@@ -1,17 +1,17 @@
-\* C19 thorough: 4-version window
+\* C19 thorough, the dimension "what was sent": every proper subset of every table with per-version magics, 3-version window
 CONSTANTS
-  W = 4
+  W = 3
   CliMagics = {1, 2}
   SrvMagics = {1}
   CliPerVersion = TRUE
   SrvPerVersion = FALSE
-  MaxSize = 4
+  MaxSize = 3
   QCases <- AdvQ
   FlagSpace <- OnlyNoFlags
   FlagsInModel = FALSE
   Responder = "adversary"
   ClientDesign = "fixed"
-  SentSpace = "configured"
+  SentSpace = "proper"
 INIT Init
 NEXT Next
 INVARIANTS TypeOK ClientSafe ClientComplete OnlyAcceptSelects SentOfConfigured UnsentNeverSettles SentDecides SentOnlyJudgesAccepts
